@@ -341,7 +341,10 @@ def rule_eq_allpaths(ctx):
             reads = False
 
             def mentions(e):
-                return any(x[0] == 'field' and x[2] == fl and x[3] == adt for x in walk(e))
+                if any(x[0] == 'field' and x[2] == fl and x[3] == adt for x in walk(e)):
+                    return True
+                # through an accessor (`self.children()`)
+                return any(x[0] == 'field' and x[2] == fl and x[3] == adt for x in walk(inline(f, e, depth=2)))
             for pt, role, pl, node in eq.places():
                 if any(isinstance(x, dict) and x.get('o') == adt and x.get('n') == fl for x in pl['pr']):
                     reads = True
@@ -367,6 +370,21 @@ def rule_eq_allpaths(ctx):
                         true_t = tt['otherwise'] if any(v == 0 for v, _ in tt['targets']) else None
                         if true_t is not None:
                             touch.add(true_t)
+            # a sequence field compared element-wise through `zip` (which stops at the shorter side) also needs its length compared
+            zipped = [t for pt, t in eq.calls() if (t.get('callee') or {}).get('name') == 'zip'
+                      and any(mentions(eq.expr_of_operand(a)) for a in t['args'])]
+            if zipped:
+                lens = [t for pt, t in eq.calls() if (t.get('callee') or {}).get('name') == 'len'
+                        and any(mentions(eq.expr_of_operand(a)) for a in t['args'])]
+                okz = len(lens) >= 2
+                r.site('%s: `%s` is compared through zip together with its length' % (adt, fl), eq.span(), 'ok' if okz else 'violation')
+                if not okz:
+                    r.violation('%s:%s:zip-without-len' % (adt, fl), eq.span(), eq.path,
+                                '`==` compares the elements of `%s` through `zip`, which stops at the shorter sequence, without comparing '
+                                'the lengths: a value equals every extension of itself (and the empty one equals everything)' % fl)
+                for pt, t in eq.calls():
+                    if t in zipped:
+                        touch.add(pt[0])
             if reads and not touch:
                 # read but never compared by == : every path to true skips it
                 touch = set()
